@@ -403,6 +403,8 @@ func (propC03) Check(k *Kernel, cov *Coverage) *Violation {
 				kind = "not-routed"
 			} else if len(c.Seen) == 1 && c.Seen[0].Req != nil && !proto.Equal(c.Seen[0].Req, want) {
 				kind = "request-mismatch|" + placeOf(fieldShape(k.W, rpc, rpc.In, firstDiff(want, c.Seen[0].Req)))
+			} else if len(c.Seen) == 1 && c.Seen[0].JSONErr != "" {
+				kind = "ts-handler-input-not-contract-json|" + fieldShape(k.W, rpc, rpc.In, c.Seen[0].JSONErrField)
 			} else if st == 400 && rpc.HasBody && requiredQueryPresent(rpc, want) {
 				kind = "required-query-on-body-verb"
 			}
